@@ -113,8 +113,10 @@ CLAIMED["C17"] = dict(
         "repaired by a fix: commit). Correspondence: GC histories through the real HStore.GC (range resolution incl. pretend, file inventory before/"
         "after compared with the model's directory), python oracle for range soundness / files touched / pretend, and the forced schedule 'two "
         "requests parked between check and registration' with a concurrent-pass detector.",
-   note="PARTIAL: (3) allows the run dst0..begin-1 of emptied earlier files where the text says 'the single earlier file'; 'dst_final <= end' is "
-        "checked by correspondence/oracle only. The request protocol model is abstract (tied to the code by the translated flag and the forced "
+   note="PARTIAL: (3) holds for ALL states and merge flags but allows up to max(end, dst_final); C17_touches_only_range (3b) closes this for every "
+        "state described by the C01 relation + GC precondition, with or without hint merge: nothing outside [dst0, end] is touched and the files "
+        "strictly between dst0 and begin held no record before the pass (so the only earlier file with data that is written to is dst0, "
+        "appended to only -- C18_pass_layout). The request protocol model is abstract (tied to the code by the translated flag and the forced "
         "schedule, not by trace replay). Trusted: Coq kernel, translator, harness incl. verifPoint parking, python oracle. No axioms.",
    technique="Rocq proof of range soundness, touched-file set and mutual exclusion over all schedules of a protocol model; refutation witness; differential correspondence + forced schedules",
    design="6/C17")
@@ -219,12 +221,14 @@ CLAIMED["C03"] = dict(
         "with its stale tail (unprocessed records never overlapped because the writing head stays below the read position), conditional repoint, "
         "hint write, source clearing, final truncation. C03_reachable_states_qualify: every state reachable by client operations and clean "
         "restarts (C02's invariant) meets the precondition provided no record extends past DataFileMax. C03_any_number_of_passes: the state after a pass satisfies relation AND precondition again, so "
-        "any sequence of passes over any legal ranges (previously collected files) preserves every read. C03_gc_then_history: a pass followed by "
+        "any sequence of passes over any legal ranges (previously collected files) preserves every read; C03_gc_preserves_reads_any_merge / "
+        "C03_any_passes_any_merge: the same for merge=on (on a collision-free key set the hint merge finds no collision, leaves data, tree and "
+        "collision table untouched, and the pass equals the pass without merge started after it). C03_gc_then_history: a pass followed by "
         "ANY history of client operations answers exactly as the reference map, the pass being invisible. Correspondence: 120 GC-mode histories "
         "per quick run (half of them a dense profile that fills and switches destinations), range resolved by the real range check, merge on/off, "
         "repeated passes, restarts with index files removed afterwards, replies + GC statistics + directory contents compared with the model; "
         "python reference-map oracle.",
-   note="PARTIAL: hint merge during GC (merge=on), a RESTART after a pass, and colliding keys are covered by correspondence + oracle "
+   note="PARTIAL: a RESTART after a pass and colliding keys are covered by correspondence + oracle "
         "only (C03_any_number_of_passes re-establishes the GC precondition, so passes may follow one another, but not the restart invariant "
         "of C02 after a pass); the precondition 'no record past DataFileMax' is an "
         "assumption on the configuration history. Trusted: Coq kernel, translator (flags gc_repoint_conditional, gc_truncates_after_inplace), "
@@ -289,7 +293,7 @@ CLAIMED["C18"] = dict(
         "every data file scanned by an independent record scanner before and after each pass, directory contents + GC counters compared with the "
         "model; python oracle: every surviving record in the range is its key's current record (position from meta-get), no duplicate tombstones "
         "(F11 class recorded), prefix of an earlier destination unchanged, the same pass run again releases nothing.",
-   note="PARTIAL: hint merge during GC (merge=on) and colliding keys are decided by correspondence + oracle, not by a theorem; records are modelled as (offset, record) lists per file, so 'byte-for-byte unchanged' is 'the same records at the "
+   note="PARTIAL: colliding keys are decided by correspondence + oracle, not by a theorem (merge=on is covered: C18_*_any_merge); records are modelled as (offset, record) lists per file, so 'byte-for-byte unchanged' is 'the same records at the "
         "same offsets' in the theorem and bytes only in the directory comparison of the correspondence. F11 is an open finding. Trusted: Coq "
         "kernel, translator, harness incl. independent scanner, python oracle. No axioms.",
    technique="Rocq loop-invariant proof over all states/ranges of what the written files contain after a pass + refutation witness; differential correspondence with independent file scanner and spec oracle",
